@@ -137,7 +137,7 @@ ASSUME /\ CompTab[T_foo] /\ ~CompTab[T_Foo] /\ ~CompTab[T_empty] /\ CompTab[W_bl
        /\ DigestTab[D1] /\ DigestTab[D2] /\ DigestTab[D512] /\ ~DigestTab[Dbad] /\ ~DigestTab[T_foo]
        /\ IdTab[T_idok].ok /\ IdTab[T_idok].id = <<105, 100>> /\ ~IdTab[T_idbad].ok /\ ~IdTab[T_foo].ok
 
-Ranges == <<<<>>,
+BasicRanges == <<<<>>,
            <<98, 121, 116, 101, 115, 61, 48, 45, 48>>,
            <<98, 121, 116, 101, 115, 61, 48, 45, 49>>,
            <<98, 121, 116, 101, 115, 61, 49, 45>>,
@@ -150,6 +150,26 @@ Ranges == <<<<>>,
            <<98, 121, 116, 101, 115, 61, 48, 45, 49, 44, 50, 45, 51>>,
            <<98, 121, 116, 101, 115, 61, 45, 50>>>>
 \* (none), bytes=0-0, bytes=0-1, bytes=1-, bytes=2-9, bytes=3-, bytes=4-5, bytes=5-2, bytes=x, 0-1, bytes=0-1,2-3, bytes=-2
+\* numerals at the integer boundaries (2^31-1, 2^31, 2^63-1, 2^63, 2^64, 20 digits), as last-byte-pos and as first-byte-pos:
+\* not evaluated here (class "other": universal clauses only), but always exported for a backend that serves a reader
+BoundaryRanges == <<
+           <<98, 121, 116, 101, 115, 61, 48, 45, 50, 49, 52, 55, 52, 56, 51, 54, 52, 55>>,
+           <<98, 121, 116, 101, 115, 61, 48, 45, 50, 49, 52, 55, 52, 56, 51, 54, 52, 56>>,
+           <<98, 121, 116, 101, 115, 61, 48, 45, 57, 50, 50, 51, 51, 55, 50, 48, 51, 54, 56, 53, 52, 55, 55, 53, 56, 48, 55>>,
+           <<98, 121, 116, 101, 115, 61, 51, 45, 57, 50, 50, 51, 51, 55, 50, 48, 51, 54, 56, 53, 52, 55, 55, 53, 56, 48, 55>>,
+           <<98, 121, 116, 101, 115, 61, 48, 45, 57, 50, 50, 51, 51, 55, 50, 48, 51, 54, 56, 53, 52, 55, 55, 53, 56, 48, 56>>,
+           <<98, 121, 116, 101, 115, 61, 48, 45, 49, 56, 52, 52, 54, 55, 52, 52, 48, 55, 51, 55, 48, 57, 53, 53, 49, 54, 49, 54>>,
+           <<98, 121, 116, 101, 115, 61, 48, 45, 57, 57, 57, 57, 57, 57, 57, 57, 57, 57, 57, 57, 57, 57, 57, 57, 57, 57, 57, 57>>,
+           <<98, 121, 116, 101, 115, 61, 50, 49, 52, 55, 52, 56, 51, 54, 52, 55, 45>>,
+           <<98, 121, 116, 101, 115, 61, 50, 49, 52, 55, 52, 56, 51, 54, 52, 56, 45>>,
+           <<98, 121, 116, 101, 115, 61, 57, 50, 50, 51, 51, 55, 50, 48, 51, 54, 56, 53, 52, 55, 55, 53, 56, 48, 55, 45>>,
+           <<98, 121, 116, 101, 115, 61, 57, 50, 50, 51, 51, 55, 50, 48, 51, 54, 56, 53, 52, 55, 55, 53, 56, 48, 56, 45>>,
+           <<98, 121, 116, 101, 115, 61, 57, 50, 50, 51, 51, 55, 50, 48, 51, 54, 56, 53, 52, 55, 55, 53, 56, 48, 55, 45, 57, 50, 50, 51, 51, 55, 50, 48, 51, 54, 56, 53, 52, 55, 55, 53, 56, 48, 55>>,
+           <<98, 121, 116, 101, 115, 61, 49, 45, 57, 50, 50, 51, 51, 55, 50, 48, 51, 54, 56, 53, 52, 55, 55, 53, 56, 48, 54>>,
+           <<98, 121, 116, 101, 115, 61, 49, 56, 52, 52, 54, 55, 52, 52, 48, 55, 51, 55, 48, 57, 53, 53, 49, 54, 49, 54, 45>>,
+           <<98, 121, 116, 101, 115, 61, 57, 57, 57, 57, 57, 57, 57, 57, 57, 57, 57, 57, 57, 57, 57, 57, 57, 57, 57, 57, 45>>>>
+\* bytes=0-2147483647, bytes=0-2147483648, bytes=0-9223372036854775807, bytes=3-9223372036854775807, bytes=0-9223372036854775808, bytes=0-18446744073709551616, bytes=0-99999999999999999999, bytes=2147483647-, bytes=2147483648-, bytes=9223372036854775807-, bytes=9223372036854775808-, bytes=9223372036854775807-9223372036854775807, bytes=1-9223372036854775806, bytes=18446744073709551616-, bytes=99999999999999999999-
+Ranges == BasicRanges \o BoundaryRanges
 CRanges == <<<<>>,
             <<48, 45, 48>>,
             <<48, 45, 50>>,
@@ -264,7 +284,9 @@ HcSc(c) == [ans |-> c.ans, size |-> c.size, mt |-> MT_test, rdig |-> D2, id |-> 
 HcHash(c) == c.rng * 7 + c.size * 3 + c.cr * 11 + (c.cl + 2) * 13 + c.bi * 17 + c.il * 19 + c.nv * 23 + c.oi * 29 + c.sid * 31
              + c.wsize * 37 + AnsIdx(c.ans) * 41 + AnsIdx(c.werr) * 43 + AnsIdx(c.cerr) * 47 + AnsIdx(c.merr) * 53
              + AnsIdx(c.iterr) * 59 + c.ct * 61 + Len(c.ref) * 67 + Len(c.kind) * 71 + (IF c.lastv THEN 73 ELSE 0)
-HcExported(c) == c.defect # "none" \/ (HcHash(c) + Seed) % HandleK = 0
+HcExported(c) == \/ c.defect # "none"
+                 \/ c.kind = "BlobGet" /\ c.ans = "ok" /\ c.rng > Len(BasicRanges)
+                 \/ (HcHash(c) + Seed) % HandleK = 0
 
 \* ------------------------------------------------------------ enumeration
 Prefixes == {"v2", "none", "v1", "noslash"}
